@@ -8,6 +8,7 @@ CONSTANTS
   MaxFaultPos = 3
   OptSet <- OptsAbort
   Colls = {"default", "custom"}
+  CancelModes = {}
   Depth = 6
   ExcludedConsulted = TRUE
   Mut = "none"
